@@ -4,9 +4,15 @@ C=$1; P=$2; R=$3; K=$4
 PATCH=$(mktemp /tmp/refix-XXXXXX.diff)
 git -C /repo show --format= "$C" > "$PATCH"
 OUT=$(/verif/tools/try_patch.sh -R "$PATCH" "$P" 2>&1)
+PATCH2=$(mktemp /tmp/refix2-XXXXXX.diff); cp "$PATCH" "$PATCH2"
 rm -f "$PATCH"
 if echo "$OUT" | grep -q "PATCH-DOES-NOT-APPLY"; then echo -e "$C\t$P\t$R\tnot-revertible (later commits touch the same lines)"; exit 0; fi
 if echo "$OUT" | grep -qF "$K"; then echo -e "$C\t$P\t$R\treported-again\t$K"; exit 0; fi
 if echo "$OUT" | grep -q "\[$R\]"; then echo -e "$C\t$P\t$R\treported-again(other key)\t$(echo "$OUT" | grep -m1 "\[$R\]" | cut -c1-160)"; exit 0; fi
 if echo "$OUT" | grep -q "^VIOLATION property=$P"; then echo -e "$C\t$P\t$R\treported-by-other-rule\t$(echo "$OUT" | grep -m1 -oE "\[[A-Z0-9]+\]")"; exit 0; fi
+# the recorded property may not be the one whose check carries the rule's report: try all
+OUT=$(/verif/tools/try_patch.sh -R "$PATCH2" all 2>&1)
+if echo "$OUT" | grep -qF "$K"; then echo -e "$C\t$P\t$R\treported-again(under $(echo "$OUT" | grep -m1 -oE '^VIOLATION property=C[0-9]+' | cut -d= -f2))\t$K"; rm -f "$PATCH2"; exit 0; fi
+if echo "$OUT" | grep -q "\[$R\]"; then echo -e "$C\t$P\t$R\treported-again(other key, other property)\t$(echo "$OUT" | grep -m1 "\[$R\]" | cut -c1-160)"; rm -f "$PATCH2"; exit 0; fi
+rm -f "$PATCH2"
 echo -e "$C\t$P\t$R\tSILENT\t$K"
